@@ -127,7 +127,8 @@ func LayerConvertFuncWithCompressionLevel(compressionLevel zstd.EncoderLevel, op
 		defer uncompressedReaderAt.Close()
 		uncompressedSR := io.NewSectionReader(uncompressedReaderAt, 0, uncompressedDesc.Size)
 		metadata := make(map[string]string)
-		opts = append(opts, estargz.WithCompression(&zstdCompression{
+		// copy: the ConvertFunc is called concurrently for the layers of an image, the captured slice must not be shared
+		opts := append(opts[:len(opts):len(opts)], estargz.WithCompression(&zstdCompression{
 			new(zstdchunked.Decompressor),
 			&zstdchunked.Compressor{
 				CompressionLevel: compressionLevel,
